@@ -23,7 +23,8 @@ import cminx
 #   the order of children IS the directory listing order
 
 DIR_NAMES = ["sub", "sub2", "a", "b", "lib", "cmake", "my-dir", "v1.2", "deep", "empty", "docs", "x_y", "src", "Zed"]
-CMAKE_STEMS = ["top", "a", "b", "util", "my.file.v2", "with-dash", "Upper", "z_last", "a1", "a2", "s1", "x"]
+CMAKE_STEMS = ["top", "a", "b", "util", "my.file.v2", "with-dash", "Upper", "z_last", "a1", "a2", "s1", "x",
+               "util-extra", "a.b", "x+y", "top-level"]   # stem order differs from file-name order for these
 OTHER_FILES = ["README.md", "notes.txt", "CMakeLists.txt", "data.json", "cmake", "x.cmake.in", "Makefile", ".hidden"]
 
 
